@@ -23,25 +23,25 @@ RULES13 = ['InverseBinaryRule', 'BlockRowBlockDiagonalRule', 'BlockDiagonalBlock
            'LinearPolarizerHWPRule']
 
 PLAN = {
-    'C20': _p(quick=220, thorough=6000),
-    'C19': _p(shards={'x32': 14, 'x64': 2}, quick=220, thorough=2000, qbudget=70, tbudget=1200),
+    'C20': _p(quick=220, thorough=20000),
+    'C19': _p(shards={'x32': 14, 'x64': 2}, quick=220, thorough=6000, qbudget=70, tbudget=1200),
     'C18': _p(quick=70, thorough=1500, qbudget=75, tbudget=1200),
-    'C17': _p(shards={'x32': 8, 'x64': 8}, quick=150, thorough=1500,
+    'C17': _p(shards={'x32': 8, 'x64': 8}, quick=150, thorough=4000,
               exhaustive_scope='the enumerated small maps of the sweep (see coverage.extra.sweep_box)'),
     'C16': _p(shards={'x32': 5, 'x64': 11}, quick=36, thorough=280, qbudget=75, tbudget=1200),
-    'C08': _p(quick=110, thorough=4000,
+    'C08': _p(quick=110, thorough=12000,
               required_classes={'thorough': ['class:AdditionOperator', 'class:BlockColumnOperator', 'class:BlockDiagonalOperator', 'class:BlockRowOperator', 'class:BroadcastDiagonalOperator', 'class:CompositionOperator', 'class:DenseBlockDiagonalOperator', 'class:DiagonalInverseOperator', 'class:DiagonalOperator', 'class:HWPOperator', 'class:HomothetyOperator', 'class:IdentityOperator', 'class:IndexOperator', 'class:InverseOperator', 'class:LinearPolarizerOperator', 'class:MoveAxisOperator', 'class:PackOperator', 'class:QURotationOperator', 'class:QURotationTransposeOperator', 'class:RavelOperator', 'class:ReshapeOperator', 'class:ReshapeTransposeOperator', 'class:SymmetricBandToeplitzOperator', 'class:ToastObservationMatrixOperator', 'class:ToastObservationMatrixTransposeOperator', 'class:TransposeOperator']}),
     'C06': _p(quick=50, thorough=800),
-    'C15': _p(quick=180, thorough=4000),
+    'C15': _p(quick=180, thorough=12000),
     'C09': _p(quick=16, thorough=120, qbudget=80, tbudget=1200,
               required_classes={'all': ['partial_last_block', 'multi_block', 'K>n', 'K=1', 'fft=2K-1', 'broadcast_band',
                                         'default_fft', 'batched']},
               exhaustive_scope='thorough tier only: the enumerated box of the sweep (see coverage.extra.sweep_box)'),
     'C14': _p(shards={'x32': 12, 'x64': 4}, quick=110, thorough=2500,
               exhaustive_scope='layer 1 only: every string of the stated grammar over {h,i,j,k} (2 217 984 strings; the ones furax rejects outside the must-accept class are counted, the others judged)'),
-    'C13': _p(shards={'x32': 10, 'x64': 6}, quick=150, thorough=3000,
+    'C13': _p(shards={'x32': 10, 'x64': 6}, quick=150, thorough=8000,
               exhaustive_scope='the enumerated box of the sweep (see coverage.extra.sweep_box), not the Hypothesis part'),
-    'C11': _p(shards={'x32': 10, 'x64': 6}, quick=150, thorough=3000,
+    'C11': _p(shards={'x32': 10, 'x64': 6}, quick=150, thorough=8000,
               exhaustive_scope='the enumerated box of the sweep (see coverage.extra.sweep_box), not the Hypothesis part'),
     'C07': _p(shards={'x32': 12, 'x64': 4}, quick=110, thorough=4000,
               required_classes={'all': ['rule:' + r for r in RULES13] + ['rule:IdentityRule', 'rule:HomothetyRule']}),
